@@ -199,7 +199,7 @@ claim("C10",
       "DESIGN.md section 4 C10")
 
 GEO_NOTE = ("Trusted: TLC, BigFix, MeridianArc (arctangent series + Helmert's series to n^5, remainder < 6e-9 m, validated once "
-            "against 40-digit quadrature); alpha's exact encodings and elementary auxiliaries (cos lat, sin sigma of outputs).")
+            "against 40-digit quadrature), GeodesicOracle (validated likewise); alpha's exact encodings and elementary auxiliaries (cos lat, sin sigma of outputs).")
 claim("C04",
       "Geodesic.tla states what being the exact geodesic entails without transcendental ground truth; MC_Geodesic (TLC) enumerates "
       "the case skeleton; ArcService (TLC) computes meridian distances. Trace_Geodesic (TLC) decides on real vincdir calls: EXACT "
@@ -208,10 +208,15 @@ claim("C04",
       "ellipsoids; RELATIONAL laws in every case of latitude band x 16 azimuth classes x distance decade 1 m..2e7 m x ellipsoid: "
       "flow Direct(s1+s2) = Direct(s1);Direct(s2), reversal, reflection in the equator, mirror in the meridian, longitude shift "
       "(incl. +-360), zero distance, angle-class arguments bit-identical, and Clairaut's constant sin(azimuth) x cos(reduced "
-      "latitude) equal at both ends of every line (4e-10), which pins the reverse azimuth of OBLIQUE lines.",
-      "NOT decided: the 1 mm accuracy of an OBLIQUE line against the exact geodesic (needs the geodesic integrals): there the laws "
-      "are necessary conditions; an error that scales all arcs of one geodesic consistently is caught on meridians/equator only. " + GEO_NOTE,
-      "TLA+ specification with exact meridian/equator oracles computed by TLC, TLC-enumerated case skeleton exercised on the real code, TLC trace validation",
+      "latitude) equal at both ends of every line (4e-10). OBLIQUE lines against the EXACT geodesic: GeodesicOracle.tla solves the "
+      "direct problem inside the specification (Bessel/Helmert auxiliary-sphere integrals by Romberg quadrature on 16-64 panels, "
+      "sines/cosines by Taylor series in Trig.tla, one second-order Newton step started from the returned point; checked against "
+      "40-digit quadrature in GeodesicOracleTest to 1e-8 m); DGE events require the returned end point within 1 mm (north/east "
+      "metres with the chord in longitude, valid to the poles) and the reverse azimuth within 1e-8 deg on lines of the same skeleton; "
+      "the shipped ellipsoids are judged on their published constants (Ellipsoids.tla).",
+      "Exact-geodesic clauses are not applicable (the specification says so) when cos(alpha0) < 1e-3, i.e. lines within 0.06 deg of the "
+      "equator's direction (the equator itself is a closed form). " + GEO_NOTE,
+      "TLA+ specification with the exact geodesic (quadrature), meridian and equator oracles computed by TLC; TLC-enumerated case skeleton exercised on the real code; TLC trace validation",
       "DESIGN.md section 4 C04")
 claim("C05",
       "On Geodesic.tla: Trace_Geodesic (TLC) decides on real vincinv calls: EXACT cases - every ordered pair of Pythagorean latitudes "
@@ -222,9 +227,13 @@ claim("C05",
       "CLOSURE: following the direct routine with the returned distance and azimuth arrives within 2 mm (+ the direct routine's own "
       "1 mm and output rounding) and the reverse azimuth agrees, charged to C05 only when the direct routine is self-consistent on "
       "that very line; Clairaut's constant agrees at the two ends (the two azimuths belong to one geodesic); lines of 1 mm..100 m "
-      "in every direction.",
-      "Known finding: reverse azimuth of lines shorter than 10 m (float cancellation). NOT decided: accuracy of oblique lines beyond closure with the direct routine; the iteration cap is not observable. " + GEO_NOTE,
-      "TLA+ specification with exact meridian/equator oracles, TLC-enumerated case skeleton exercised on the real code, TLC trace validation with guarded instrument",
+      "in every direction. EXACT GEODESIC: IGE events follow the exact geodesic of GeodesicOracle.tla (see C04) from point 1 with "
+      "the returned distance and forward azimuth: it must arrive within 2 mm of point 2, and the returned reverse azimuth must be "
+      "that geodesic's azimuth there within 1e-8 deg + the angle 2 mm subtends at the distance from the nearer pole; includes "
+      "nearly antipodal pairs (177..177.96 deg apart) where the iteration converges slowly.",
+      "Known finding: reverse azimuth of lines shorter than 10 m (float cancellation). Exact-geodesic clauses not applicable when "
+      "cos(alpha0) < 1e-3 (see C04). " + GEO_NOTE,
+      "TLA+ specification with the exact geodesic (quadrature), meridian and equator oracles; TLC-enumerated case skeleton exercised on the real code; TLC trace validation with guarded instrument",
       "DESIGN.md section 4 C05")
 
 claim("C18",
@@ -250,10 +259,11 @@ claim("C13",
       "Trace_Mga (TLC) consumes the stage events with Mga's actions and decides: every stage's input is the previous stage's output "
       "bit for bit, the pipeline's return equals the stepwise result exactly (4-decimal height rounding), no input height -> 0 in / "
       "0 out, covariance out iff in, natural zone of the transformed position (also within 2 m of a zone boundary), the Helmert "
-      "stage against Helmert.tla (1 um), covariance symmetric / PSD / bit-identical to local2cart -> conform7 -> cart2local, and "
+      "stage against Helmert.tla (1 um), covariance symmetric / PSD / bit-identical to local2cart -> conform7 -> cart2local AND equal "
+      "in VALUE (1e-9 relative) to the specification's own R2^T (M (R1 V R1^T) M^T + sum sd_k^2 j_k j_k^T) R2 with the east-north-up "
+      "frames from Trig.tla (sines/cosines in the spec), Helmert.tla's Jacobian and the PUBLISHED parameter uncertainties, and "
       "there-and-back returns within 0.3 mm / 0.2 mm (grid, or geographic when the zone changes).",
-      "Trusted: TLC, BigFix; the covariance VALUE is decided piecewise (J Q J^T in C06, rotations in C16) and here by exact equality "
-      "with the composition. Grid points are a lattice over zones 46..59 x eastings x latitudes -60..-5 with seeded jitter.",
+      "Trusted: TLC, BigFix. Grid points are a lattice over zones 46..59 x eastings x latitudes -60..-5 with seeded jitter.",
       "TLA+ multi-step behaviour specification model-checked by TLC, stepwise stage events recorded from the real code, TLC trace validation with the spec's own actions",
       "DESIGN.md section 4 C13")
 
